@@ -104,3 +104,58 @@ func TestFastGoid(t *testing.T) {
 		t.Log("fast goroutine-id path not available; using runtime.Stack")
 	}
 }
+
+// Writer preference of RWMutex: a recursive RLock deadlocks iff a writer announces itself between the two
+// acquisitions (1 preemption); plain reader/writer pairs never deadlock; TryRLock fails behind a pending writer.
+func TestRWMutexWriterPreference(t *testing.T) {
+	rec := &vrt.Harness{Name: "recursive-rlock", Body: func(x *vrt.Exec) {
+		var m vsync.RWMutex
+		x.Go("R", func() { m.RLock(); m.RLock(); m.RUnlock(); m.RUnlock() })
+		x.Go("W", func() { m.Lock(); m.Unlock() })
+		x.Run()
+		x.Outcome = "ok"
+		if x.S.Deadlock {
+			x.Outcome = "deadlock"
+		}
+	}}
+	for bound := 0; bound <= 2; bound++ {
+		out := map[string]int{}
+		vrt.Explore(t, rec, bound, 0, 1, nil, func(r *vrt.Result) { out[r.Outcome]++ })
+		t.Logf("recursive bound=%d %v", bound, out)
+		if bound == 0 && out["deadlock"] != 0 {
+			t.Fatal("deadlock at bound 0")
+		}
+		if bound >= 1 && out["deadlock"] == 0 {
+			t.Fatal("recursive read lock behind a pending writer not found")
+		}
+	}
+	plain := &vrt.Harness{Name: "plain-rw", Body: func(x *vrt.Exec) {
+		var m vsync.RWMutex
+		n := 0
+		try := "-"
+		x.Go("R1", func() { m.RLock(); vrt.Hook("R1 in critical section"); _ = n; m.RUnlock() })
+		x.Go("R2", func() {
+			m.RLock()
+			_ = n
+			m.RUnlock()
+			if m.TryRLock() {
+				try = "got"
+				m.RUnlock()
+			} else {
+				try = "refused"
+			}
+		})
+		x.Go("W", func() { m.Lock(); n++; m.Unlock() })
+		x.Run()
+		x.Outcome = try
+		if x.S.Deadlock {
+			x.Outcome = "deadlock"
+		}
+	}}
+	out := map[string]int{}
+	st := vrt.Explore(t, plain, 99, 0, 1, nil, func(r *vrt.Result) { out[r.Outcome]++ })
+	t.Logf("plain unbounded: %d executions %v", st.Executions, out)
+	if out["deadlock"] != 0 || out["got"] == 0 || out["refused"] == 0 {
+		t.Fatalf("unexpected outcomes %v", out)
+	}
+}
